@@ -732,19 +732,21 @@ func classParserKeepsEveryRune(c *Ctx, rule string) {
 		r.Unk(rule, "G.ast.CharClassMatcher.parse:loops", "", g.Where(fd.Pos()), "reading loop or extraction loop not found")
 		return
 	}
-	stores := func(p bpath, targets ...string) bool {
+	nStores := func(p bpath, targets ...string) int {
+		n := 0
 		for _, e := range p {
 			if e.Kind != "assign" {
 				continue
 			}
 			for _, t := range targets {
 				if strings.HasPrefix(e.Text, t+"=append("+t+",") {
-					return true
+					n++
 				}
 			}
 		}
-		return false
+		return n
 	}
+	stores := func(p bpath, targets ...string) bool { return nStores(p, targets...) > 0 }
 	var bad []string
 	paths := enumPaths(readLoop.Body)
 	n := 0
@@ -755,6 +757,14 @@ func classParserKeepsEveryRune(c *Ctx, rule string) {
 		n++
 		if !stores(p, "chars", recv+".UnicodeClasses") {
 			bad = append(bad, "an iteration that read a rune stores nothing on the path ["+strings.Join(p.guards(), " ")+"]: that member is silently dropped from the class")
+		} else if k := nStores(p, "chars", recv+".UnicodeClasses"); k != 1 {
+			var cs []string
+			for _, e := range p {
+				if e.Kind == "case" {
+					cs = append(cs, e.Text)
+				}
+			}
+			bad = append(bad, fmt.Sprintf("one member of the class text stores %d members on the path through cases [%s]: the class gains a member that was not written", k, strings.Join(cs, " > ")))
 		}
 	}
 	if n == 0 {
